@@ -13,6 +13,10 @@ SchemaAuditor::SchemaAuditor(
 
 bool SchemaAuditor::CheckConstituenta(const std::string& alias, const std::string& definition, const CstType targetType) {
   auditor.parser.log.Clear();
+  auditor.isParsed = false;
+  auditor.isTypeCorrect = false;
+  auditor.isValueCorrect = false;
+  auditor.parser.syntax = rslang::Syntax::UNDEF;
   const auto expr = rslang::Generator::GlobalDefinition(alias, definition, targetType == CstType::structured);
   prefixLen = static_cast<StrPos>(std::ssize(expr) - std::ssize(definition));
 
